@@ -244,9 +244,18 @@ class DistBeta(DistContinuous):
         """
         y1 = self._dist1.draw()
         y2 = self._dist2.draw()
+        tries: int = 0
         while y1 + y2 == 0.0:
             # both gamma variates underflowed to zero (very small shape
             # parameters, or the smallest stream outputs): draw again
+            tries += 1
+            if tries > 100:
+                # the shapes are so small that the variates always underflow.
+                # In that limit the mass is at 0 and 1, with P(1) equal to
+                # the mean alpha1 / (alpha1 + alpha2)
+                u = self._stream.next_float()
+                p1 = self._alpha1 / (self._alpha1 + self._alpha2)
+                return 1.0 if u < p1 else 0.0
             y1 = self._dist1.draw()
             y2 = self._dist2.draw()
         return y1 / (y1 + y2)
